@@ -1,6 +1,7 @@
 import GlueVerif.Lemmas.Derived
 import GlueVerif.Lemmas.DerivedTable
 import GlueVerif.Lemmas.DerivedData
+import GlueVerif.Lemmas.DerivedGrammar
 /-!
 # C14 — derived attributes compute their defining expression and go with their inputs
 
@@ -150,6 +151,24 @@ theorem update_id_preserves_values (I : Interp ω α) (t : Table κ ω α) (old 
   exact specAt_rename I old new t hnew idx fuel x v hv
 
 end table
+
+/-- **`parse (print e) = e`**: for every expression tree of the command grammar
+(`num | {tag} | unary - | + - * / ** | parentheses`), the recursive-descent parser (Python's
+precedence and associativity: `-a**b = -(a**b)`, `a**-b`, `**` right-, the others
+left-associative) applied to the minimal-parentheses text of the tree returns the tree — so the
+reference evaluator of the text-expression family evaluates the tree the text denotes. -/
+theorem parse_print {κ α : Type} (e : TExpr κ α) : Grammar.parse (Grammar.print e) = some e :=
+  Grammar.parse_print_eq e
+
+/-- `(a - (b - c)) * -(d ** -e ** f)` keeps exactly the parentheses Python needs. -/
+example :
+    let e : TExpr Nat Nat :=
+      .bin .mul (.bin .sub (.ref 0) (.bin .sub (.ref 1) (.ref 2)))
+        (.neg (.bin .pow (.ref 3) (.neg (.bin .pow (.ref 4) (.ref 5)))))
+    Grammar.print e =
+      [.lp, .tag 0, .op .sub, .lp, .tag 1, .op .sub, .tag 2, .rp, .rp, .op .mul,
+       .op .sub, .tag 3, .op .pow, .op .sub, .tag 4, .op .pow, .tag 5] := by
+  rfl
 
 /-! ### witnesses -/
 
